@@ -196,10 +196,10 @@ pub fn compression_of(c: u8) -> Option<Compression> {
     }
 }
 
-fn block_on<F: std::future::Future>(f: F) -> Option<F::Output> {
+pub fn block_on<F: std::future::Future>(f: F) -> Option<F::Output> {
     let mut f = std::pin::pin!(f);
     let mut cx = std::task::Context::from_waker(std::task::Waker::noop());
-    for _ in 0..1_000_000 {
+    for _ in 0..100_000_000u64 {
         if let std::task::Poll::Ready(v) = f.as_mut().poll(&mut cx) {
             return Some(v);
         }
